@@ -314,7 +314,9 @@ func runPeer(rec *Rec, sc *PeerScenario, n int) {
 			} else {
 				WaitUntil(3*time.Second, func() bool {
 					se, _ := sh.counts(st.Slot)
-					return ended(sl) && (se > 0 || st.Path == "dial" && st.Cv == "reject") && srv.CountSession()+cli.CountSession() == countUp(slots)
+					// (also when the dialling side's own hook rejects: the connection is established at TCP level before Dial
+					//  returns, so the accept loop will get it and run its hook, possibly a little later on a loaded machine)
+					return ended(sl) && se > 0 && srv.CountSession()+cli.CountSession() == countUp(slots)
 				})
 				time.Sleep(500 * time.Microsecond)
 			}
